@@ -192,7 +192,7 @@ PROPS = {
         "monty_modpow; abstract interpretation of the BigInt wrappers over the sign domain; must-pass-through canonicalisation analysis",
     },
     "C06": {
-        "clauses": [r3.check_parse_validation_order, r7.check_bases, r7.check_formatters, r9.check_sign_readers, r1.check_biguint_normal_form, count_ok("biguint/convert.rs", "bigint/convert.rs", floor=100), selftest("R2-count-narrowed")],
+        "clauses": [r3.check_parse_validation_order, r7.check_bases, r7.check_formatters, r9.check_sign_readers, r5check.check_constructors, r1.check_biguint_normal_form, count_ok("biguint/convert.rs", "bigint/convert.rs", floor=100), selftest("R2-count-narrowed")],
         "not_decided": "bit-regrouping and chunked Horner/division arithmetic, the accept/reject language of the digit classifier beyond the validation order, padding "
         "(delegated to core::fmt)",
         "level_text": "Decides: text "
@@ -203,7 +203,7 @@ PROPS = {
         "technique": T_R3 + " (validation order); const-evaluated static tables read from the compiler; MIR argument-provenance tables; normal-form escape analysis",
     },
     "C07": {
-        "clauses": [guards("shift"), fam("Shl", "Shr", "BitAnd", "BitOr", "BitXor"), r5check.check_helpers, r5check.check_shifts, r5check.check_bitops, count_ok("biguint/shift.rs", "bigint/shift.rs", "biguint/bits.rs", "bigint/bits.rs", "biguint.rs", "bigint.rs", floor=100), r1.check_biguint_normal_form, selftest("R2-count-narrowed"), r3.check_panic_site_table],
+        "clauses": [guards("shift"), fam("Shl", "Shr", "BitAnd", "BitOr", "BitXor"), r5check.check_helpers, r5check.check_shifts, r5check.check_bitops, count_ok("biguint/shift.rs", "bigint/shift.rs", "biguint/bits.rs", "bigint/bits.rs", "biguint.rs", "bigint.rs", floor=100), r1.check_biguint_normal_form, selftest("R2-count-narrowed"), r3.check_panic_site_table, r3.check_shift_amount_range, selftest("R3c-shift-range")],
         "not_decided": "running two's-complement carries and result lengths inside the nine bit helpers, intra-digit shift arithmetic, bit queries (bit, trailing_zeros, "
         "count_ones) and set_bit's digit arithmetic",
         "level_text": "Decides: the negative-shift panic precedes everything else in biguint_shl/biguint_shr in release builds (comparison against T::zero() on the shift "
@@ -302,7 +302,7 @@ PROPS = {
             r3.check_parity_dispatch,
             r3.check_inventory,
             r3.check_panic_site_table,
-            r9.check_iterator_write_sets, both(r11.check_montgomery_operand_lengths), both(r11.check_montgomery_result_length), r3.check_operand_overflow, r3.check_digit_step_checked, selftest("R3c-operand-overflow", "R3c-operand-overflow-abs", "R3c-digit-step"), r3.check_float_guess_guard],
+            r9.check_iterator_write_sets, both(r11.check_montgomery_operand_lengths), both(r11.check_montgomery_result_length), r3.check_operand_overflow, r3.check_digit_step_checked, selftest("R3c-operand-overflow", "R3c-operand-overflow-abs", "R3c-digit-step"), r3.check_float_guess_guard, r3.check_shift_amount_range, selftest("R3c-shift-range")],
         "not_decided": "unreachability of internal/debug assertions, primitive arithmetic overflow in debug builds, index bounds, termination, faults other than division by zero",
         "level_text": "Decides the guard discipline for every input in both profiles: every documented failure (zero divisor, underflow, negative shift, radix range, zero "
         "modulus, negative exponent, zeroth/imaginary root, empty range, zero bound) has a release-mode guard testing the right operand before the work; "
@@ -321,7 +321,7 @@ PROPS = {
         "technique": "inline-asm template data-flow analysis (reaching definitions over the instruction list) + MIR def-use/dominance at the call sites; closed-world unsafe inventory",
     },
     "C16": {
-        "clauses": [r6.check_matrix, r6.check_feature_stability, r6.check_cfg_taint, r3.check_inventory, profile_diff(_guard_table, "r3_guards_profile_diff"), profile_diff(r3.check_underflow_asserts), profile_diff(r3.check_radix), profile_diff(r3.check_div_guards), r3.check_operand_overflow, r3.check_digit_step_checked, selftest("R3c-operand-overflow", "R3c-operand-overflow-abs", "R3c-digit-step"), r3.check_float_guess_guard],
+        "clauses": [r6.check_matrix, r6.check_feature_stability, r6.check_cfg_taint, r3.check_inventory, profile_diff(_guard_table, "r3_guards_profile_diff"), profile_diff(r3.check_underflow_asserts), profile_diff(r3.check_radix), profile_diff(r3.check_div_guards), r3.check_operand_overflow, r3.check_digit_step_checked, selftest("R3c-operand-overflow", "R3c-operand-overflow-abs", "R3c-digit-step"), r3.check_float_guess_guard, r3.check_shift_amount_range, selftest("R3c-shift-range")],
         "not_decided": "equality of results where it rests on arithmetic (Newton fixpoint independent of the guess; float helper agreement; absence of overflow so that "
         "overflow-check and wrapping builds agree); the 32-bit-digit variants of the code are analysed through an i686 build (-Zbuild-std): one configuration in the quick tier, all in the thorough tier",
         "level_text": "Decides: all ten documented feature configurations type-check (and the i686 / 32-bit-digit build does); enabling serde/rand/quickcheck/arbitrary "
@@ -333,7 +333,7 @@ PROPS = {
         "technique": "type checking of the 10-configuration matrix; canonical MIR fingerprints across 4 fact configurations; cfg-taint (cross-config line diff + forward dataflow); dev-vs-release inventory; guard rules read differentially between the dev and release profiles",
     },
     "C17": {
-        "clauses": [r7.check_serde_tables, r6.check_feature_stability, r1.check_biguint_normal_form, r7.check_serde_hint_confined, r7.check_serde_declared_length],
+        "clauses": [r7.check_serde_tables, r6.check_feature_stability, r1.check_biguint_normal_form, r7.check_serde_hint_confined, r7.check_serde_declared_length, r7.check_serde_zero_is_empty],
         "not_decided": "the u64 -> (lo, hi) split arithmetic of the emitted elements and the pair re-join in the visitor",
         "level_text": "Decides: Sign serialises as the i8 -1/0/1 and deserialises by the inverse table with an Err arm for every other byte (switch targets and promoted "
         "constants read from MIR); BigInt <-> the pair (sign, magnitude) in this order, rebuilt through the canonicalising from_biguint; deserialised BigUint "
